@@ -499,8 +499,8 @@ func c18Script(r *kit.Run, idx int64, rng *rand.Rand) {
 			case 10:
 				op = "Extend"
 				o := 1 - k
-				if mods[o].ordered != m.ordered {
-					return
+				if m.ordered && !mods[o].ordered {
+					return // the resulting order would be the map's iteration order
 				}
 				script = append(script, fmt.Sprintf("S%d.Extend(S%d)", k, o))
 				src := append([]int(nil), mods[o].order...)
